@@ -866,6 +866,7 @@ def type_printer(ctx):
         ctx.fail_closed(['C11', 'C16', 'C13'], 'R-TMPL', 'TYPE', 'expected one match on the type', where)
         return
     arms = {}
+    closure_loops = []
     rpo = sorted(f.normal_blocks())
     for lab, tgt in sw[0]['edges']:
         ev = []
@@ -875,6 +876,18 @@ def type_printer(ctx):
                 ev.append(('w', fmt_text(a), a, c['block']))
             elif c['path'] == f.id:
                 ev.append(('rec', f.expr_of_operand(c['term']['args'][1]), None, c['block']))
+            elif c['gpath'] and re.search(r'Iterator::(try_for_each|for_each)$', c['gpath']) and len(c['term']['args']) == 2:
+                # the parameter loop as `args.iter().try_for_each(|..| { write!(..)?; .. })`: the closure's writes, in place
+                cl_ = strip(f.expr_of_operand(c['term']['args'][1]))
+                if cl_[0] == 'closure' and cl_[1] in P.fns:
+                    g_ = P.fns[cl_[1]]
+                    for c2 in g_.calls():
+                        if c2['gpath'] and c2['gpath'].endswith('fmt::Write::write_fmt'):
+                            a2 = g_.expr_of_operand(c2['term']['args'][1])
+                            ev.append(('w', fmt_text(a2), a2, c['block']))
+                        elif c2['path'] == f.id:
+                            ev.append(('rec', g_.expr_of_operand(c2['term']['args'][1]), None, c['block']))
+                    closure_loops.append((lab, expand(f, f.expr_of_operand(c['term']['args'][0]))))
         arms[lab] = ev
     labels = set(arms)
     ctx.ob(['C13'], 'R-MATCH', 'TYPE|all-variants', labels >= {'Raw', 'ConstPointer', 'MutPointer', 'Array', 'Function'}, 'the type printer has an arm for every resolved type form: %s' % sorted(labels), where)
@@ -947,6 +960,9 @@ def type_printer(ctx):
         sty_, src_ = loop_source(f, L_)
         if src_ is not None and any(isinstance(x, tuple) and x[0] == 'payload' and x[2] == 'Function' and x[3] == 1 for x in walk(expand(f, src_))):
             okargs = not any(re.search(r'Iterator::(rev|skip|take|filter|step_by|skip_while|take_while|filter_map|map_while|scan|fuse|cycle)$', c_[3]) for c_ in calls_in(expand(f, src_)))
+    for lab_, src_ in closure_loops:
+        if lab_ == 'Function' and any(isinstance(x, tuple) and x[0] == 'payload' and x[2] == 'Function' and x[3] == 1 for x in walk(src_)):
+            okargs = not any(re.search(r'Iterator::(rev|skip|take|filter|step_by|skip_while|take_while|filter_map|map_while|scan|fuse|cycle)$', c_[3]) for c_ in calls_in(src_))
     okf = okf and okret and okargs
     ctx.ob(['C16', 'C04', 'C13'], 'R-TMPL', 'TYPE|function', okf and okcc,
            'a function pointer prints `unsafe extern "<its own calling convention>" fn (<name: type, ...>) [-> ret]`: %s' % tf, where)
